@@ -31,6 +31,54 @@ def pitch_token(step, alter, octave):
     return p + ("#" * a if a > 0 else "-" * (-a))
 
 
+def _voice_events(p, vnotes, measure):
+    """events {onset_q: [("main", token)]} of one voice inside one measure, gaps filled with rests; None if the voice
+    cannot be written in one sub-spine (ties, unequal chords, inexpressible values)"""
+    if any(n.get("tie_next") or n.get("tie_prev") for n in vnotes):
+        return None, None
+    by_onset = {}
+    for n in vnotes:
+        by_onset.setdefault(n["t"], []).append(n)
+    events, exp = {}, []
+    pos = measure["s"]
+
+    def fill(a, b):
+        a, b = gen.quarter_pos(p, a), gen.quarter_pos(p, b)
+        while a < b:
+            for d in (F(4), F(3), F(2), F(3, 2), F(1), F(3, 4), F(1, 2), F(3, 8), F(1, 4), F(1, 8), F(1, 16)):
+                if a + d <= b and recip(d) is not None:
+                    events[a] = [("main", recip(d) + "r")]
+                    a += d
+                    break
+            else:
+                return False
+        return True
+
+    for t in sorted(by_onset):
+        group = by_onset[t]
+        if t < pos or len(set(n["e"] for n in group)) > 1 or group[0]["e"] > measure["e"]:
+            return None, None
+        if t > pos and not fill(pos, t):
+            return None, None
+        q = gen.quarter_pos(p, t)
+        d = gen.quarter_pos(p, group[0]["e"]) - q
+        r = recip(d)
+        if r is None:
+            return None, None
+        pitched = [n for n in group if n["kind"] == "note"]
+        if pitched:
+            events[q] = [("main", " ".join(r + pitch_token(n["step"], n["alter"], n["octave"]) for n in pitched))]
+            exp.extend((q, d, n["step"], n["alter"] or 0, n["octave"], False, False, False) for n in pitched)
+        else:
+            events[q] = [("main", r + "r")]
+        pos = group[0]["e"]
+    if pos < measure["e"] and not fill(pos, measure["e"]):
+        return None, None
+    if not exp:
+        return None, None
+    return events, exp
+
+
 def encode(asc, same_part=False, split=None):
     """-> (text, expected) ; expected = {"spines": [ {part, staff, notes:[(onset_q, dur_q, step, alter, octave, grace)], "measures":[q], "timesigs":[(q,b,t)], "key": fifths, "clef": (sign, line)} ]}
     Spines are written right-to-left as in Humdrum practice (lowest staff first)."""
@@ -116,6 +164,19 @@ def encode(asc, same_part=False, split=None):
         ks = p["keysigs"][0] if p["keysigs"] else None
         cols.append({"pi": pi, "st": st, "events": events, "clef": clef, "ks": ks, "ts": [(gen.quarter_pos(p, t["t"]), t["beats"], t["beat_type"]) for t in p["timesigs"]]})
         expected.append({"part": pi, "staff": st, "notes": exp_notes, "measures": [b for b, _ in bars], "timesigs": [(gen.quarter_pos(p, t["t"]), t["beats"], t["beat_type"]) for t in p["timesigs"]], "key": ks["fifths"] if ks else None, "clef": (clef["sign"], clef["line"]) if clef else None})
+    # a spine split that carries real music: the second voice of one staff is written, for one measure, in a
+    # sub-spine opened with *^ and merged with *v at the end of the measure
+    pseudo = None
+    if split is not None and len(bars) >= 2 and len(split) > 2 and split[2]:
+        col = split[0] % len(cols)
+        mi = 1 + split[1] % (len(bars) - 1)
+        pi, p, st, v, _ = spines[col]
+        vs = sorted(set(n["voice"] for n in p["notes"] if n["staff"] == st))
+        v2 = [n for n in p["notes"] if len(vs) > 1 and n["staff"] == st and n["voice"] == vs[1] and n["m"] == mi and n["kind"] != "grace"]
+        ev2, exp2 = _voice_events(p, v2, p["measures"][mi]) if v2 else (None, None)
+        if ev2:
+            pseudo = (col, mi, exp2)
+            cols.insert(col + 1, {"pi": pi, "st": st, "events": ev2, "clef": None, "ks": None, "ts": [], "pseudo": True})
     # header
     ncol = len(cols)
     rows = [["**kern"] * ncol, ["*staff%d" % (i + 1) for i in range(ncol)][::-1] if False else ["*staff%d" % (c["st"] + 2 * c["pi"]) for c in cols]]
@@ -166,6 +227,24 @@ def encode(asc, same_part=False, split=None):
     rows.append(["=="] * ncol)
     rows.append(["*-"] * ncol)
     did_split = False
+    if pseudo is not None:
+        col, mi, exp2 = pseudo
+        i0 = next(i for i, row in enumerate(rows) if row[0].startswith("=%d" % bars[mi][1]) and not row[0].startswith("=="))
+        i1 = next(i for i in range(i0 + 1, len(rows)) if rows[i][0].startswith("="))
+        body = rows[i0 + 1 : i1]
+        if body and all(not row[0].startswith("*") for row in body):
+            drop = lambda row: row[: col + 1] + row[col + 2 :]
+            split_row = ["*"] * (ncol - 1)
+            split_row[col] = "*^"
+            merge_row = ["*"] * col + ["*v", "*v"] + ["*"] * (ncol - col - 2)
+            rows = [drop(r) for r in rows[: i0 + 1]] + [split_row] + body + [merge_row] + [drop(r) for r in rows[i1:]]
+            expected[col]["notes"] = expected[col]["notes"] + exp2
+            did_split = "notes"
+        else:
+            rows = [row[: col + 1] + row[col + 2 :] for row in rows]
+        cols.pop(col + 1)
+        ncol -= 1
+        split = None
     if split is not None and len(bars) >= 2:
         # one spine splits into two sub-spines for one measure (the second carries a whole-measure rest) and
         # merges again: the notation denotes the same notes, but the rows no longer have a constant number of
